@@ -36,7 +36,7 @@ ASSUMPTIONS = ["fair round: in every sub-round every running node's timer event 
 SCHEMES_QUICK = ["pedersen-bls-chained", "bls-unchained-g1-rfc9380"]
 SCHEMES_ALL = ["pedersen-bls-chained", "pedersen-bls-unchained", "bls-unchained-on-g1", "bls-unchained-g1-rfc9380", "bls-bn254-unchained-on-g1"]
 K = 4          # sub-steps (CatchupPeriods) per period
-SLACK = K + 1  # settle budget of the trace validation, in sub-steps
+SLACK = 2 * K + 1  # settle budget of the trace validation, in sub-steps (two periods: a sync that beats the aggregator costs one, see DESIGN C05)
 
 
 # ---------------------------------------------------------------- scripts
@@ -174,7 +174,7 @@ def run_impl(n, t, scheme, backend, ops, hints, maxwait, quiet):
 # ---------------------------------------------------------------- oracle P5 (python, on the implementation's log only)
 
 def components(s, n, cuts):
-    """connected components of up nodes under the logged partition groups and cut links"""
+    """connected components of up nodes under the logged partition groups and cut links that are pairwise linked"""
     comp, seen = [], set()
     def linked(i, j):
         return s["g"][i] == s["g"][j] and (i, j) not in cuts and (j, i) not in cuts
@@ -189,7 +189,9 @@ def components(s, n, cuts):
             c.add(a)
             todo += [b for b in range(n) if s["up"][b] and b not in c and linked(a, b)]
         seen |= c
-        comp.append(frozenset(c))
+        # "can reach each other": only a pairwise linked set is a healthy set (a chain a–b–c with a and c cut is not)
+        if all(linked(a, b) for a in c for b in c if a != b):
+            comp.append(frozenset(c))
     return comp
 
 
@@ -354,7 +356,7 @@ def configs(tier, rng):
         s = SCHEMES_ALL[idx % len(SCHEMES_ALL)]
         for nm, fn in QUICK_SCRIPTS:
             cases.append(dict(n=n, t=t, scheme=s, backend="bolt" if idx % 2 == 0 else "mem", name=nm, ops=fn(n, t)))
-    for j in range(30):
+    for j in range(90):
         r = rng.fork(f"rand{j}")
         n, t = r.choice(shapes)
         cases.append(dict(n=n, t=t, scheme=r.choice(SCHEMES_ALL), backend=r.choice(["bolt", "mem"]), name=f"random-{j}", ops=script_random(r, n, t)))
